@@ -73,7 +73,8 @@ class LinkPair:
         return dict(dyn=dyn, pl=c.get("pl", 32), rxdyn=dyn, rxpl=c.get("pl", 32),
                     rxpipe=c.get("pipe", 1), aw=c.get("aw", 5), arc=c.get("arc", 15), ard=c.get("ard", 1500),
                     crc=self.tchip.crc_len(), kbps={1: 1000, 2: 2000, 250: 250}[c.get("rate", 1)],
-                    ackpl=bool(c.get("ackpl")), lite_tx=self.tx_lite, lite_rx=self.rx_lite, aa0=bool(c.get("aa0", True)))
+                    ackpl=bool(c.get("ackpl")), lite_tx=self.tx_lite, lite_rx=self.rx_lite, aa0=bool(c.get("aa0", True)),
+                    dynack=bool(self.tx_lite or not c.get("no_dyn_ack")))
 
     # ---- recording
     def _air_since(self, n0):
